@@ -97,9 +97,11 @@ CLAIMS = {
              'first trigger (R1, R2); stop requests only where the process runs, single emission point (R3); '
              'restart/shutdown re-routing to the Master and request table agreement sender/branch/remote method for the '
              '7 request headers (R4); the final order is sent only when leaving the ending state, to the local '
-             'Supervisor, after a stop phase, ending states lead only to FINAL (R5).',
+             'Supervisor, after a stop phase, ending states lead only to FINAL; nothing is started or activated during the '
+             'stop phase: jobs aborted first, deferred starts dropped by Stopper.abort, no CHECKED instance activated in '
+             'the ending states; the table accepts RESTARTING / SHUTTING_DOWN from every state the XML-RPC accepts (R4, R5).',
         technique='constant binding + who-may-call + writer/reader table agreement + must-call (ast, call graph)',
-        design='4/C09'),
+        design='4/C09, 11.4'),
     'C10': dict(
         text='The numeric bound in ticks under event loss is NOT decided. Decided for every path: the timeout check chain '
              'tick -> Commander.check -> ApplicationJobs.check -> timed_out() is unconditional (R1); path enumeration of '
